@@ -132,7 +132,7 @@ def opOf : Sexp → Option Op
   | .list [.atom "values", r] => (idxOfSexp r).map .values
   | .list [.atom "entries", r] => (idxOfSexp r).map .entries
   | .list [.atom o, r] =>
-    if o == "ser" then (idxOfSexp r).map .ser
+    if o == "ser" || o == "deser" then (idxOfSexp r).map .ser
     else if o == "resolve" then (idxOfSexp r).map .resolve
     else if o == "ptype" || o == "dtype" || o == "tostring" || o == "tokey" || o == "walk" then
       (idxOfSexp r).map fun r' => .obs r' none
@@ -192,7 +192,6 @@ def cachesOK (st : CState) : Bool :=
 def usesAt : Op → Bool
   | .at _ _ => true
   | .get _ _ => true
-  | .tree _ => true
   | _ => false
 
 def exec : List Sexp → String
